@@ -56,10 +56,22 @@ static const char *probe_names[PR_MAX] = {
 	"thread_exit_nodeinit", "sig_cb", "sig_during_handler", "sig_handoff", "wait_cb",
 	"pid_reused", "kill_dead", "work_run", "work_done", "pool_put_busy", "idle_timeout",
 	"pump_bytes", "pump_full", "pump_eof", "inot_cb", "inot_multi", "popen_kill",
-	"reg_failed_event", "timer_many", "radix_cross", "sig_nowalk", "sig_foreign_thread",
+	"reg_failed_event", "timer_many", "radix_cross", "sig_nowalk", "sig_foreign_thread", "reg_failed_ext",
 };
 
 extern int __llvm_profile_write_file(void) __attribute__((weak));
+
+int reg_fault_arm(int id, int want, int site, int err)
+{
+	if (PL->obj[id].p[7] != want || RO[id].attempts++ != 0)
+		return 0;
+	simk_fault_once(site, err);
+	return 1;
+}
+void reg_fault_disarm(int site)
+{
+	simk_fault_once_pending(site);
+}
 
 /* ---- violations / result ------------------------------------------------------- */
 void viol(const char *id, const char *fmt, ...)
